@@ -209,6 +209,18 @@ func genSuggestUser(r *RNG, common []string) *sCase {
 		below = append(below, chain[i].statics...)
 		below = append(below, chain[i].priv...)
 	}
+	// a class of the target's short name in another namespace, with methods of its own
+	decoy := r.Bool()
+	if decoy {
+		emit("module Other")
+		emit("  class " + target.name)
+		def("    ", "decoy_i")
+		emit("    def self.decoy_s")
+		emit("      1")
+		emit("    end")
+		emit("  end")
+		emit("end")
+	}
 	minus := func(a, b []string) []string {
 		var o []string
 		for _, x := range a {
@@ -242,6 +254,27 @@ func genSuggestUser(r *RNG, common []string) *sCase {
 		sc.MustNot = append(append([]string{"stranger_i", "stranger_s", "stranger_p", "stranger_make", "stranger_produce"}, below...), minus(instNames, staticNames)...)
 		sc.MustNot = append(sc.MustNot, moduleFunctions...)
 		sc.Common = nil
+	}
+	if decoy {
+		own := append(append([]string{}, instNames...), staticNames...)
+		if r.Chance(1, 4) {
+			// the receiver is the namespaced class instead
+			lines = lines[:len(lines)-0]
+			if sc.Kind == "user-class" {
+				sc.Recv = "Other::" + target.name
+				sc.Must, sc.MustNot = []string{"decoy_s", "new"}, append(own, "decoy_i")
+				sc.Kind = "user-class-same-name-other-namespace"
+			} else {
+				if strings.HasPrefix(lines[len(lines)-1], "obj = ") {
+					lines = lines[:len(lines)-1]
+				}
+				emit("obj = Other::" + target.name + ".new")
+				sc.Must, sc.MustNot = []string{"decoy_i"}, append(own, "decoy_s")
+				sc.Kind = "user-instance-same-name-other-namespace"
+			}
+		} else {
+			sc.MustNot = append(sc.MustNot, "decoy_i", "decoy_s")
+		}
 	}
 	emit(sc.Recv + ".")
 	sc.Row = len(lines)
